@@ -248,6 +248,9 @@ class CallTracer:
         self.traces: Dict[FrameType, CallTrace] = {}
         self.thrown_into: Dict[FrameType, int] = {}
         self.sample_rate = sample_rate
+        # A private generator: drawing from the global one would change the random numbers
+        # the traced program itself gets.
+        self._random = random.Random()
         self.cache: Dict[Any, Optional[Callable[..., Any]]] = {}
         self.should_trace = code_filter
         self.max_typed_dict_size = max_typed_dict_size
@@ -272,7 +275,7 @@ class CallTracer:
         if _is_resumption(frame):
             # a generator whose first call was not sampled; never start a trace in the middle of its life
             return
-        if self.sample_rate and random.randrange(self.sample_rate) != 0:
+        if self.sample_rate and self._random.randrange(self.sample_rate) != 0:
             return
         func = self._get_func(frame)
         if func is None:
